@@ -99,6 +99,13 @@ fn check_utf8(v: &[u8]) {
         if a != b {
             report(format!("MISMATCH from_utf8 {} got={} want={}", hex(v), a.map(|x| hex(&x)).unwrap_or("Err".into()), b.map(|x| hex(&x)).unwrap_or("Err".into())));
         }
+        if let Ok(text) = std::str::from_utf8(v) {
+            // SAFETY: `v` was just validated
+            let u = unsafe { LeanString::from_utf8_unchecked(v) };
+            if u.as_bytes() != text.as_bytes() {
+                report(format!("MISMATCH from_utf8_unchecked {} got={}", hex(v), hex(u.as_bytes())));
+            }
+        }
         let al = LeanString::from_utf8_lossy(v);
         let bl = String::from_utf8_lossy(v);
         if al.as_bytes() != bl.as_bytes() {
